@@ -155,7 +155,9 @@ func mutateWire(r *SplitMix, a, b []byte) ([]byte, string) {
 		n, _, err := mpParse(objsA[k])
 		if err == nil && n.Kind == mpArr && len(n.Arr) > 0 {
 			tag := "pkt-edit"
-			switch r.Intn(6) {
+			switch r.Intn(8) {
+			case 6, 7: // shift a byte across the boundary between the final flag and the payload in the signed/hashed input
+				return boundaryShift(objsA, k, r.Intn(3), r.Intn(2) == 0), "pkt-boundary-shift"
 			case 0:
 				for _, c := range n.Arr {
 					if c.Kind == mpBool {
@@ -221,4 +223,40 @@ func mutateWire(r *SplitMix, a, b []byte) ([]byte, string) {
 		}
 		return m, "overwrite4"
 	}
+}
+
+// boundaryShift flips the final flag of packet k (if it has one) and moves one byte
+// across the flag/payload boundary of the authenticated input: how = 0 drops the
+// payload's first byte, 1 prepends 0x00, 2 prepends 0x01; cut drops the later packets.
+func boundaryShift(objs [][]byte, k, how int, cut bool) []byte {
+	n, _, err := mpParse(objs[k])
+	if err != nil || n.Kind != mpArr {
+		return joinObjects(objs)
+	}
+	for _, c := range n.Arr {
+		if c.Kind == mpBool {
+			c.B = !c.B
+			break
+		}
+	}
+	for i := len(n.Arr) - 1; i >= 0; i-- {
+		c := n.Arr[i]
+		if c.Kind == mpBin {
+			switch {
+			case how == 0 && len(c.Bytes) > 0:
+				c.Bytes = cloneBytes(c.Bytes[1:])
+			case how == 1:
+				c.Bytes = append([]byte{0}, c.Bytes...)
+			case how == 2:
+				c.Bytes = append([]byte{1}, c.Bytes...)
+			}
+			break
+		}
+	}
+	o := append([][]byte{}, objs[:k]...)
+	o = append(o, mpEnc(n))
+	if !cut {
+		o = append(o, objs[k+1:]...)
+	}
+	return joinObjects(o)
 }
